@@ -135,13 +135,23 @@ def gen_case(rng, cid, ntypes=None, adversarial=False, ninj=1, nfiles=1, force_a
         provs.append({'i': i, 'type': t, 'deps': deps, 'async': is_async, 'fall': fall, 'ctx': takes_ctx})
     src_types = '\n'.join(decls)
     fn_src = []
+    # one provider may return a second value nobody consumes, of a type whose package nothing else in the package's
+    # generated file mentions (it is written as _ and must not drag an import in)
+    extra_of = None
+    if provs and rng.random() < 0.3:
+        extra_of = rng.choice(provs)['i']
+        imports['container/list'] = imports.get('container/list', '')
+        c.meta['unused_foreign_result'] = extra_of
     for p in provs:
         params = ['d%d %s' % (j, alltypes[j][1]) for j in p['deps']]
         if p['ctx']:
             params.insert(0, 'c context.Context')
         res = p['type'][1]
         body = 'return %s' % zero_expr(res)
-        if p['fall']:
+        if p['i'] == extra_of:
+            res = '(%s, *list.List%s)' % (res, ', error' if p['fall'] else '')
+            body += ', nil' + (', nil' if p['fall'] else '')
+        elif p['fall']:
             res = '(%s, error)' % res
             body += ', nil'
         fname = 'New%d' % p['i']
